@@ -10,6 +10,7 @@ CONSTANTS
   MaxResets = 1
   MaxByz = 1
   Variant = "code"
+  ProbeHeights = {}
   FullChainUpTo = 0
 VIEW View
 INVARIANTS TypeOK StoredOnTree SyncLeHead LocatorShape BackoffQuality AnswerContiguous RoundsBound Converged NotBehind
